@@ -345,9 +345,24 @@ async fn run_case(c: &Case, ctx: &mut WorkerCtx) -> Outcome {
                             proto::query(&sql)
                         };
                         cli.send(&bytes).await;
-                        let (_m, e) = cli.read_until_ready(wire::T_REPLY).await;
+                        let (m, e) = cli.read_until_ready(wire::T_REPLY).await;
+                        let errs = crate::cli::errors(&m);
                         match e {
-                            ReadEnd::Ready(_) => {}
+                            ReadEnd::Ready(_) => {
+                                // (without the plugins it is an ordinary statement and can meet a pool error like any other)
+                                // (the permission error of table_access carries the same SQLSTATE as the pool errors)
+                                if m.iter().any(|x| x.code == b'E' && proto::error_code(&x.body) == "58000" && !proto::error_message(&x.body).contains("permission for table")) {
+                                    r.pool_errors += 1;
+                                    if !(timeout_class || any_kill) {
+                                        r.stall = Some(format!("pool error {:?} although connect_timeout is 5 s and no backend was killed", errs));
+                                        break 'acts;
+                                    }
+                                }
+                            }
+                            ReadEnd::Closed if has_limit && errs.iter().any(|x| x.contains("checkout failure limit")) => {
+                                r.kicked = true;
+                                break 'acts;
+                            }
                             ReadEnd::Closed if any_kill => {
                                 r.faulted = true;
                                 break 'acts;
